@@ -89,7 +89,13 @@ def oracle(prog, idx):
     data_before = {n: t.data.copy() for n, t in ex.v.items()}
     seed = None
     if st[2] is not None:
-        seed = ex.keep("seed gradient", np.array(st[2][2], dtype=float).reshape(st[2][1]).copy())
+        sv = np.array(st[2][2], dtype=float).reshape(st[2][1])
+        if int(np.abs(sv).sum()) % 2 == 0:  # (decided by the statement itself, so that shrinking keeps the seed kind)
+            seed = ex.keep("seed gradient", sv.copy())
+        else:
+            # a seed that does not own its memory: row 1 of a bigger buffer the caller keeps
+            buf = ex.keep("seed gradient (buffer the seed is a view of)", np.stack([sv * 0 + 7.0, sv, sv * 0 - 7.0]))
+            seed = buf[1]
     try:
         ex.v[L].backward(seed)
     except Exception:
@@ -110,8 +116,12 @@ def oracle(prog, idx):
         if g is None:
             continue
         if seed is not None and np.shares_memory(g, seed):
-            fails.append(("seed-stored-uncopied!", f"t{n}.grad shares memory with the caller's seed array (L.backward(g) stores g itself as L.grad)"))
-            return fails
+            if n == L or ex.v[n].base is ex.v[L]:  # L itself, or a view of it (C06: its gradient is a view of L's)
+                if not any(c == "seed-stored-uncopied!" for c, _ in fails):
+                    fails.append(("seed-stored-uncopied!", f"t{n}.grad shares memory with the caller's seed array (L.backward(g) stores g itself as L.grad)"))
+            else:
+                fails.append(("grad-aliases-seed", f"t{n}.grad shares memory with the seed array the caller passed to t{L}.backward()"))
+                return fails
         for m in names:
             if np.shares_memory(g, ex.v[m].data):
                 fails.append(("grad-aliases-data", f"t{n}.grad shares memory with t{m}.data"))
@@ -147,12 +157,48 @@ def oracle(prog, idx):
 # ------------------------------------------------------------------ op level: inputs, index objects, seeds of every op family
 
 
+class _SpecialRng:
+    """a Generator whose `uniform` plants exact zeros (and a repeated value) in ~20% of the positions: lanes with a
+    single zero, ties, ... — the value classes on which backward rules patch or special-case their inputs"""
+
+    def __init__(self, rng):
+        self._rng = rng
+
+    def __getattr__(self, k):
+        return getattr(self._rng, k)
+
+    def uniform(self, low=0.0, high=1.0, size=None):
+        a = np.asarray(self._rng.uniform(low, high, size=size))
+        if a.ndim and a.size:
+            m = self._rng.random(a.shape)
+            if low <= 0.0 <= high:
+                a[m < 0.12] = 0.0
+            a[(m >= 0.12) & (m < 0.2)] = a.reshape(-1)[0]
+        return a
+
+
 def op_case(args):
+    if len(args) == 5 and args[4]:
+        # memory guarding off (nothing is locked: an op that writes into its inputs is no longer stopped by NumPy),
+        # mode 2 additionally with planted zeros / ties
+        with mg.mem_guard_off:
+            r = _op_case(args[:4], special=args[4] == 2)
+        r["args"] = list(args)
+        r["name"] += ":guard-off" + ("+zeros" if args[4] == 2 else "")
+        return r
+    r = _op_case(tuple(args[:4]))
+    r["args"] = list(args)
+    return r
+
+
+def _op_case(args, special=False):
     from .c05 import op_cases
     from .c14 import layer_cases
 
     seed, which, ci, seedkind = args
     rng = np.random.default_rng([seed, ci, 3])
+    if special:
+        rng = _SpecialRng(rng)
     if which == 0:
         cs = op_cases()
         name, build = cs[ci % len(cs)]
@@ -208,7 +254,8 @@ def run(ctx: Ctx) -> Outcome:
     out.rule = ("random programs: checksums of every caller-owned array (ndarray operands, index arrays, masks, seed) and of "
                 "every tensor's data around every statement and around backward; pairwise shares_memory of all stored "
                 "gradients, with all data and with the seed; in-place edit of each .grad observed on all others; plus the same "
-                "for 20+19 op/layer families with owning, non-owning and float32 seeds")
+                "for 20+19 op/layer families with owning, non-owning and float32 seeds, and again with memory guarding off "
+                "(plain values and planted zeros/ties)")
     engcheck.report(out, results, "C12", oracle)
     from .c05 import op_cases
     from .c14 import layer_cases
@@ -216,6 +263,8 @@ def run(ctx: Ctx) -> Outcome:
     items = [(ctx.seed, 0, ci, sk) for ci in range(len(op_cases())) for sk in range(3)]
     gru_first = [(ctx.seed, 1, ci, sk) for ci, (nm, _) in enumerate(layer_cases()) for sk in range(3) if nm == "gru"]
     items = gru_first + items + [(ctx.seed, 1, ci, sk) for ci, (nm, _) in enumerate(layer_cases()) for sk in range(3) if nm != "gru"]
+    # the same families with memory guarding off, plain and with planted zeros/ties (owning seed)
+    items += [(it[0], it[1], it[2], 0, mode) for it in items if it[3] == 0 for mode in (1, 2)]
     res = pmap(op_case, items)
     seen = set()
     hist = {}
@@ -223,7 +272,7 @@ def run(ctx: Ctx) -> Outcome:
         _CACHE[tuple(r["args"])] = r
         out.evaluations += 1
         hist[r["name"]] = hist.get(r["name"], 0) + 1
-        out.nontrivial.add(stable_hash([r["name"], r["args"][3]]))
+        out.nontrivial.add(stable_hash([r["name"], r["args"][3], (r["args"] + [0])[4]]))
         for f in r["fails"]:
             sig = _sig(r["name"], f)
             if sig not in seen:
@@ -239,6 +288,7 @@ _CACHE = {}
 def _sig(name, f):
     if f == "grad of output shares memory with the caller's seed":
         return "C12|seed-stored-uncopied"  # one family: L.backward(g) keeps g itself as L.grad
+    name = name.split(":")[0]  # the family; the run mode (guard off, planted zeros) is in the message and the replay
     cls = "seed-modified" if "seed array" in f else ("input-modified" if "was modified" in f else "aliasing")
     return f"C12|{cls}|{name}"
 
